@@ -23,6 +23,14 @@ Theorem C10_blinded_modexp_correct :
 Proof. exact blinded_modexp_correct. Qed.
 Print Assumptions C10_blinded_modexp_correct.
 
+(* the exponent split: both exponents handed to BN_mod_exp are positive and add up to 2^258 + priv *)
+Theorem C10_exponent_split :
+  forall priv blinding, bytes_ok priv -> length priv = 32%nat -> bytes_ok blinding ->
+  let '(e1, e2) := blinded_exponents repo_params priv blinding in
+  0 < e1 /\ 0 < e2 /\ e1 + e2 = 2 ^ 258 + be_decode priv.
+Proof. exact blinded_exponents_split. Qed.
+Print Assumptions C10_exponent_split.
+
 (* the same over integers: all x, r in [0, 2^256) *)
 Theorem C10_blinded_modexp_correct_Z :
   forall (r0 : list N) (a x r : Z),
